@@ -162,7 +162,7 @@ def sym_cases(prints, quick, rng):
         out.append(mk(cid, text, which, kind="sym", syms=o["syms"], toks=True, pred={"sqf": sorted(o["ds"]) + ([o["os"]] if o["ds"] else []), "cfg": sorted(o["dc"]) + ([o["oc"]] if o["dc"] else [])}))
         # the same bytes inside a config value, and at the end of a heap-allocated buffer of the parsers
         # (strings < 16 bytes live inside the std::string object, where the sanitizer sees no over-read)
-        if L <= 2 or rng.random() < (0.08 if quick else 0.1):
+        if L <= 2 or rng.random() < (0.06 if quick else 0.1):
             var.append(mk(cid + "w", "class A { x = " + text + "; };", CFG, tag="wrapped", origin="sym-in-config-value"))
             var.append(mk(cid + "v", "g = [" + text + "];", SQF, tag="wrapped", origin="sym-in-sqf-array"))
             var.append(mk(cid + "p", " " * 17 + text, ["sqfparse", "cfgparse", "pp"], tag="padded", origin="sym-padded"))
@@ -500,6 +500,9 @@ def run(rep, tier, seed, replay):
                 "the timing families), runs of 2000 (20000) units, every single byte in 11 contexts; distinct by (text, front ends); non-trivial = text of >= 2 bytes")
     design = None
     scale_todo = []
+    if not replay:
+        for f in glob.glob(os.path.join(vlib.REPLAY, "C10_*.json")):     # replay files of earlier runs of this check
+            os.remove(f)
     if replay:
         obj = json.load(open(replay))
         enumerated, sampled = [obj["case"]], []
@@ -557,7 +560,7 @@ def run(rep, tier, seed, replay):
                 n += 1
         specials = special_cases(quick)
         if quick:
-            specials = [s for s in specials if not (s[0] == "byte" and len(s[1]) > 1 and rng.random() > 0.12)]
+            specials = [s for s in specials if not (s[0] == "byte" and len(s[1]) > 1 and rng.random() > 0.08)]
         for tg, t, which in specials:
             key = (t, tuple(which))
             if key in seen:
